@@ -21,6 +21,7 @@ EqR(a, b, s) == FCloseS(a, b, s, Lit("1e-9"))
 VARIABLE l
 PF == INSTANCE PVFunction WITH Add <- FAdd, Sub <- FSub, Mul <- FMul, Div <- FDiv, Lt <- FLt, Le <- FLe,
                                Eq <- EqR, Dec <- Lit, Exp <- FExp, PowInt <- FPowInt
+TP == INSTANCE TemperatureProgram WITH Add <- FAdd, Mul <- FMul, Dec <- Lit, Exp <- FExp, Ln <- FLog, PowInt <- FPowInt
 Pr == INSTANCE Process WITH Add <- FAdd, Sub <- FSub, Mul <- FMul, Div <- FDiv, Lt <- FLt, Le <- FLe,
                             Eq <- EqX, Dec <- Lit, Num <- FromInt, Dev <- "none",
                             run <- l, time <- l, m <- l, x <- l, T <- l, J <- l, y <- l, P <- l, Qe <- l, Qc <- l, pc <- l
@@ -56,6 +57,8 @@ Cl_CompBal  == Later => Pr!CompBalRel(Pre, E, O)
 Cl_Qevap     == IsState => Pr!QevapRel(E, O, E.h1, E.h2)
 Cl_SelfCool  == (Later /\ ~O.iso /\ ~O.hasProg) => Pr!SelfCoolRel(Pre, E, Pre.cp1, Pre.cp2)
 Cl_Programme == (Later /\ O.hasProg) => EqX(E.T, E.progT, E.T)
+\* reference semantics of the programme itself (DRIFT): the public program() equals the specification's formula
+Ref_ProgramValue == (IsState /\ O.hasProg) => EqR(E.progT, TP!Value(O.prog, E.time), E.progT)
 Cl_IsoConst  == (IsState /\ O.iso) => E.T = O.T0
 Cl_QcondIff  == IsState => (E.hasQcond <=> O.hasTperm)
 \* Step0Twin{a, b}: step 0 of the isothermal (a) and of the non-isothermal (b) model started from the same conditions
